@@ -11,7 +11,7 @@ from harness.props import c06
 
 OBLIGATIONS = [
     "PgmVerif.C10_cache_transparent", "PgmVerif.C10_cache_bounded", "PgmVerif.C10_counts_row_perm",
-    "PgmVerif.C10_unobserved_config_k2", "PgmVerif.C10_unobserved_config_bd", "PgmVerif.C10_rising_gamma",
+    "PgmVerif.C10_unobserved_config_k2", "PgmVerif.C10_unobserved_config_bd", "PgmVerif.C10_rising_gamma", "PgmVerif.C10_state_order_irrelevant",
     "PgmVerif.C10_bdeu_covered_edge", "PgmVerif.C10_loglik_covered_edge", "PgmVerif.C10_nparams_covered_edge",
     "PgmVerif.C10_defaults_tie",
 ]
